@@ -71,8 +71,10 @@ def run(ck):
     import sysmodel, ringcheck
     ringcheck.run(ck, quick)
     sysmodel.run_for(ck, "C03")
-    qks = ["BB:256:256", "BB:512:512", "UB:256:1024", "UB:128:4096"]
-    n = 200 if quick else 3000
+    # "UBS" = the shadow-Spinlock build: every lock acquisition/release of a frontend thread is a yield point (context registration
+    # racing with backend polls)
+    qks = ["BB:256:256", "BB:512:512", "UB:256:1024", "UB:128:4096", "UBS:256:1024"]
+    n = 250 if quick else 3000
     scen = []
     for i in range(n):
         qk = qks[i % len(qks)]
